@@ -44,15 +44,26 @@ package vm
 //@ inline
 //@ func (*Stack).pushNoRef
 //@ inline
+//@ prop C12,C13
 //@ func (*Stack).Push
 //@ inline
+//@ opt frame off
+//@ requires s != nil
+//@ call (*refCounter).Add requires[stored] arg0 == s.refs && arg1 == e.value
+//@ ensures[counted] ncalls("(*refCounter).Add") == 1 && ncalls("(*refCounter).Remove") == 0
+//@ prop C13
 
+// (C12) every element put on a stack is counted with the stack's counter, every element taken off is
+// released from it: once each, and it is the element's own item that is counted.
+//@ prop C12,C13
 //@ func (*Stack).Pop
 //@ requires s != nil
 //@ requires[nopanic] len(s.elems) >= 1
 //@ opt frame off
 //@ modifies s.elems, *s.refs, fields(stackitem.Array, rc), fields(stackitem.Struct, rc), fields(stackitem.Map, rc)
 //@ ensures[top] result == old(s.elems[len(s.elems)-1]) && same(s.elems, old(s.elems[0:len(s.elems)-1]))
+//@ call (*refCounter).Remove requires[taken] arg0 == s.refs && arg1 == old(s.elems[len(s.elems)-1].value)
+//@ ensures[released] ncalls("(*refCounter).Remove") == 1 && ncalls("(*refCounter).Add") == 0
 
 //@ func (*Stack).PushItem
 //@ requires s != nil
@@ -60,6 +71,7 @@ package vm
 //@ modifies s.elems, *s.refs, fields(stackitem.Array, rc), fields(stackitem.Struct, rc), fields(stackitem.Map, rc), elems(Element)
 //@ ensures[pushed] len(s.elems) == old(len(s.elems)) + 1 && s.elems[len(s.elems)-1].value == i
 //@ ensures[below] forall(j, 0, old(len(s.elems)), s.elems[j] == old(s.elems[j]))
+//@ prop C13
 
 // ---- views of an element (each panics, i.e. FAULTs, when the item has no such view)
 //@ func (Element).BigInt
@@ -447,6 +459,7 @@ package vm
 
 // ================= stack manipulation =================
 // Positions are counted from the top: elems[len-1-k] is the k-th element.
+//@ prop C12,C13
 //@ func (*Stack).RemoveAt
 //@ requires s != nil
 //@ requires[nopanic] 0 <= n && n < len(s.elems)
@@ -455,6 +468,8 @@ package vm
 //@ ensures[removed] result == old(s.elems[len(s.elems)-1-n]) && len(s.elems) == old(len(s.elems)) - 1
 //@ ensures[below] forall(j, 0, len(s.elems) - n, s.elems[j] == old(s.elems[j]))
 //@ ensures[above] forall(j, len(s.elems) - n, len(s.elems), s.elems[j] == old(s.elems[j+1]))
+//@ call (*refCounter).Remove requires[taken] arg0 == s.refs && arg1 == old(s.elems[len(s.elems)-1-n].value)
+//@ ensures[released] ncalls("(*refCounter).Remove") == 1 && ncalls("(*refCounter).Add") == 0
 
 //@ func (*Stack).InsertAt
 //@ requires s != nil
@@ -464,6 +479,9 @@ package vm
 //@ ensures[len] len(s.elems) == old(len(s.elems)) + 1 && s.elems[len(s.elems)-1-n] == e
 //@ ensures[below] forall(j, 0, len(s.elems) - 1 - n, s.elems[j] == old(s.elems[j]))
 //@ ensures[above] forall(j, len(s.elems) - n, len(s.elems), s.elems[j] == old(s.elems[j-1]))
+//@ call (*refCounter).Add requires[stored] arg0 == s.refs && arg1 == e.value
+//@ ensures[counted] ncalls("(*refCounter).Add") == 1 && ncalls("(*refCounter).Remove") == 0
+//@ prop C13
 
 //@ func (*Stack).Swap
 //@ requires s != nil
